@@ -3,6 +3,7 @@
 package vatomic
 
 import (
+	"reflect"
 	"sync/atomic"
 	"unsafe"
 
@@ -259,12 +260,14 @@ func (x *Pointer[T]) CompareAndSwap(o, n *T) bool {
 	})
 }
 
-// Value mirrors atomic.Value (without the consistent-type panic).
+// Value mirrors atomic.Value, including its panic on a store of an inconsistently typed value.
 type Value struct {
 	real atomic.Value
 	c    cell
 	v    any
 }
+
+func sameType(a, b any) bool { return a == nil || b == nil || reflect.TypeOf(a) == reflect.TypeOf(b) }
 
 func (x *Value) Load() (r any) {
 	if sched() {
@@ -282,7 +285,17 @@ func (x *Value) Store(v any) {
 		panic("sync/atomic: store of nil value into Value")
 	}
 	if sched() {
-		do(x.c.o(), "atomic.Value.Store", kStore, func() { x.v = v })
+		bad := false
+		do(x.c.o(), "atomic.Value.Store", kStore, func() {
+			if !sameType(x.v, v) {
+				bad = true
+				return
+			}
+			x.v = v
+		})
+		if bad {
+			panic("sync/atomic: store of inconsistently typed value into Value")
+		}
 		return
 	}
 	if free() {
@@ -292,7 +305,18 @@ func (x *Value) Store(v any) {
 
 func (x *Value) Swap(v any) (old any) {
 	if sched() {
-		do(x.c.o(), "atomic.Value.Swap", kRMW, func() { old = x.v; x.v = v })
+		bad := false
+		do(x.c.o(), "atomic.Value.Swap", kRMW, func() {
+			if !sameType(x.v, v) {
+				bad = true
+				return
+			}
+			old = x.v
+			x.v = v
+		})
+		if bad {
+			panic("sync/atomic: swap of inconsistently typed value into Value")
+		}
 		return old
 	}
 	if free() {
